@@ -4,6 +4,7 @@ import (
 	"bufio"
 	"errors"
 	"fmt"
+	"io"
 	"os"
 	"path/filepath"
 	"strings"
@@ -15,6 +16,10 @@ import (
 func init() { families["c19x"] = runC19Sinks }
 
 type failingWriter struct{}
+
+type writerFunc func([]byte) (int, error)
+
+func (f writerFunc) Write(b []byte) (int, error) { return f(b) }
 
 func (failingWriter) Write([]byte) (int, error) { return 0, errors.New("sink failed") }
 
@@ -68,10 +73,20 @@ func runC19Sinks(cases []string, out *bufio.Writer, _ []string) {
 			obs = append(obs, step(func() { a.Start() }))
 			os.RemoveAll(dir)
 			obs = append(obs, step(func() { a.Append(ev("x")) }), step(func() { a.Stop() }))
-		case "console-failing":
-			log.Stdout = failingWriter{}
+		case "console-failing", "console-short-0", "console-zero-nil", "console-partial-short", "console-partial-err", "console-full-err":
+			// every way an io.Writer can fail: no progress with an error / with io.ErrShortWrite / with nil, partial progress, full length plus an error
+			log.Stdout = map[string]io.Writer{
+				"console-failing":       failingWriter{},
+				"console-short-0":       writerFunc(func(b []byte) (int, error) { return 0, io.ErrShortWrite }),
+				"console-zero-nil":      writerFunc(func(b []byte) (int, error) { return 0, nil }),
+				"console-partial-short": writerFunc(func(b []byte) (int, error) { return len(b) / 2, io.ErrShortWrite }),
+				"console-partial-err":   writerFunc(func(b []byte) (int, error) { return len(b) / 2, errors.New("disk full") }),
+				"console-full-err":      writerFunc(func(b []byte) (int, error) { return len(b), errors.New("late error") }),
+			}[c]
 			a := &log.ConsoleAppender{Layout: &log.TextLayout{}}
-			obs = append(obs, step(func() { a.Start() }), step(func() { a.Append(ev("x")) }), step(func() { a.Write([]byte("y")) }), step(func() { a.Stop() }))
+			l := &log.ConsoleLogger{LoggerBase: log.LoggerBase{Level: log.LevelRange{MinLevel: log.NoneLevel, MaxLevel: log.MaxLevel}}, ConsoleAppender: log.ConsoleAppender{Layout: &log.JSONLayout{}}}
+			obs = append(obs, step(func() { a.Start() }), step(func() { a.Append(ev("x")) }), step(func() { a.Write([]byte("y")) }), step(func() { a.Write(nil) }), step(func() { a.Stop() }),
+				step(func() { l.Append(ev("z")) }), step(func() { l.Write([]byte("raw")) }))
 			log.Stdout = os.Stdout
 		case "rolling-missing-dir":
 			a := &log.RollingFileAppender{Layout: &log.TextLayout{}, FileDir: filepath.Join(dir, "nope"), FileName: "a.log", Rotation: log.TimeRotation{Interval: time.Second}, MaxAge: 1}
